@@ -17,7 +17,8 @@ def count_cases(path):
 def layout_leg(c, pid, x):
     """design: DecReg(EncReg(r)) = r on the enumerated registries; spec->impl: each (registry, bytes) on real encode/decode"""
     wd = c.wd
-    r = vlib.tlc("MC_Wire", cfg(wd, "MC_Wire_layout.cfg", 'CONSTANTS Mode = "layout" MaxFaults = 0 Stride = 1\nSPECIFICATION Spec\nINVARIANT FormatRoundTrip FormatCanonical EmitLayout\nCHECK_DEADLOCK FALSE\n'), wd, workers=4)
+    big = "{1100, 4200, 16384}" if c.tier == "thorough" else "{1100}"
+    r = vlib.tlc("MC_Wire", cfg(wd, "MC_Wire_layout.cfg", 'CONSTANTS Mode = "layout" MaxFaults = 0 Stride = 1 BigLens = %s\nSPECIFICATION Spec\nINVARIANT FormatRoundTrip FormatCanonical EmitLayout\nCHECK_DEADLOCK FALSE\n' % big), wd, workers=4, heap="8g", stack=True)
     if not r.ok: raise vlib.ToolError("Wire design check failed: " + "\n".join(r.errors[:3]))
     c.add("states", r.distinct); c.add("transitions", r.generated)
     out = os.path.join(wd, "MC_Wire_layout.cfg.out")
